@@ -18,7 +18,7 @@ static mut CK: u64 = 0;
 #[collapse_debuginfo(yes)]
 macro_rules! tick {
     () => {
-        unsafe { std::ptr::write_volatile(&raw mut TICK, std::ptr::read_volatile(&raw const TICK) + 1) }
+        unsafe { std::arch::asm!("add qword ptr [rip + {t}], 1", t = sym TICK, options(nostack)) }
     };
 }
 
